@@ -580,7 +580,11 @@ impl<T: Iterator<Item = PathEl>> Iterator for DashIterator<'_, T> {
                     if self.input_done {
                         return None;
                     }
-                    self.state = DashState::ToStash;
+                    // `get_input` moves to `FromStash` when it meets a `ClosePath`
+                    // that closes an empty sub-path; keep that state.
+                    if self.state == DashState::NeedInput {
+                        self.state = DashState::ToStash;
+                    }
                 }
                 DashState::ToStash => {
                     if let Some(el) = self.step() {
